@@ -234,6 +234,8 @@ def replay_file(path: str) -> int:
         sc = json.load(f)
     pid = sc["property"]
     mod = load_prop(pid)
+    if hasattr(mod, "warmup"):
+        mod.warmup()
     known_open = [k for k in load_known(pid) if k["status"] == "open"]
     res = run_guarded(mod, sc)
     exp = (sc.get("expect") or {}).get("class")
@@ -259,6 +261,8 @@ def run_check(pid: str, tier: str, seed: int, n_override=None, workers=None, bud
 
     W.install_seams()
     mod = load_prop(pid)
+    if hasattr(mod, "warmup"):
+        mod.warmup()
     os.makedirs(OUT, exist_ok=True)
     os.makedirs(EVID, exist_ok=True)
     known = load_known(pid)
